@@ -8,7 +8,7 @@ import sys
 VERIF = os.path.dirname(os.path.dirname(os.path.abspath(__file__)))
 
 
-def main(results_path, out_root='/tmp/seed/out'):
+def main(results_path, prefix=''):
     rows = {}
     for line in open(results_path):
         line = line.strip()
@@ -29,7 +29,8 @@ def main(results_path, out_root='/tmp/seed/out'):
         rows[os.path.basename(r['dir'])] = r
     table = []
     for sid, r in sorted(rows.items()):
-        src = os.path.join(out_root, sid)
+        src = r['dir']
+        sid = prefix + sid
         meta = json.load(open(os.path.join(src, 'meta.json')))
         confirmed = (r.get('applies') and '2988 passed' in r.get('suite', '')
                      and r.get('demo_unpatched_rc') == 0 and r.get('demo_patched_rc') not in (0, None))
@@ -62,4 +63,4 @@ def main(results_path, out_root='/tmp/seed/out'):
 
 
 if __name__ == '__main__':
-    main(sys.argv[1])
+    main(*sys.argv[1:3])
